@@ -66,6 +66,10 @@ func (f fam) name() string {
 
 func strp(s string) *string { return &s }
 
+// onTermLen, when set, runs when the device receives "terminal length 0" (a later, secret-free step of an on-open
+// sequence that can be made to fail)
+var onTermLen func()
+
 // loginDevice: telnet or ssh front end in front of a two level device; rej = rejected attempts.
 func loginDevice(kind string, s secrets, rej int, askPP bool, escBehaviour string, onSecret func()) *dev.CLIDevice {
 	attempts := 0
@@ -76,10 +80,13 @@ func loginDevice(kind string, s secrets, rej int, askPP bool, escBehaviour strin
 		case "show x":
 			return dev.Reply{Out: "x out"}
 		case "terminal length 0":
+			if onTermLen != nil {
+				onTermLen()
+			}
 			return dev.Reply{}
 		case "enable":
 			switch escBehaviour {
-			case "asks-grants", "asks-refuses", "asks-eof", "asks-eio", "asks-silent":
+			case "asks-grants", "asks-refuses", "asks-eof", "asks-eio", "asks-silent", "asks-write-error":
 				return dev.Reply{Raw: strp("Password: "), Next: "enable-pw"}
 			case "grants":
 				return dev.Reply{Next: "priv"}
@@ -171,6 +178,10 @@ func scenario(f fam) sched.Scenario {
 					}
 				})
 				tr = dev.NewFake(e, d)
+				if esc == "asks-write-error" {
+					// the transport breaks on exactly the write that carries the secret
+					tr.FailWrite = func(b []byte) bool { return strings.Contains(string(b), f.sec.enable) }
+				}
 				tr.MaxChunk, tr.Cuts = f.maxChunk, f.env > 0
 				switch kind {
 				case "telnet":
@@ -294,6 +305,13 @@ func scenario(f fam) sched.Scenario {
 					}
 				case "platform-onopen":
 					mk("", 0, false, "asks-grants")
+					onTermLen = nil
+					switch f.variant {
+					case "redacted-write-fails":
+						tr.FailWrite = func(b []byte) bool { return strings.Contains(string(b), f.sec.enable) }
+					case "later-step-stalls":
+						onTermLen = func() { tr.StallAt = tr.Sent() }
+					}
 					yaml := `---
 platform-type: 'verif'
 default:
@@ -379,7 +397,7 @@ default:
 						sent = true
 					}
 				}
-				faulty := f.variant == "stall" || f.variant == "write-error" || f.variant == "asks-eof" || f.variant == "asks-eio" || f.variant == "asks-silent"
+				faulty := f.variant == "stall" || f.variant == "write-error" || f.variant == "asks-eof" || f.variant == "asks-eio" || f.variant == "asks-silent" || f.variant == "asks-write-error" || f.variant == "redacted-write-fails" || f.variant == "later-step-stalls"
 				if !sent && f.variant != "grants" && f.variant != "refuses" && !faulty {
 					e.Violate("c11:vacuous", "no secret ever reached the device in this scenario (lines %v)", d.Lines)
 				}
@@ -401,16 +419,16 @@ func scenarios(tier string) []sched.Scenario {
 	for _, v := range []string{"ok", "retry", "fail", "stall", "write-error"} {
 		fvs = append(fvs, fv{"telnet-login", v}, fv{"ssh-login", v})
 	}
-	for _, v := range []string{"asks-grants", "grants", "refuses", "asks-refuses", "asks-eof", "asks-eio", "asks-silent"} {
+	for _, v := range []string{"asks-grants", "grants", "refuses", "asks-refuses", "asks-eof", "asks-eio", "asks-silent", "asks-write-error"} {
 		fvs = append(fvs, fv{"escalate", v})
 	}
-	for _, v := range []string{"asks-grants", "asks-refuses", "asks-eof", "asks-eio", "asks-silent"} {
+	for _, v := range []string{"asks-grants", "asks-refuses", "asks-eof", "asks-eio", "asks-silent", "asks-write-error"} {
 		fvs = append(fvs, fv{"onopen-escalate", v})
 	}
 	for _, v := range []string{"generic", "generic-two-options", "netconf", "netconf-two-options"} {
 		fvs = append(fvs, fv{"system-key", v})
 	}
-	fvs = append(fvs, fv{"interactive", "generic"}, fv{"interactive", "network"}, fv{"platform-onopen", "redacted-write"})
+	fvs = append(fvs, fv{"interactive", "generic"}, fv{"interactive", "network"}, fv{"platform-onopen", "redacted-write"}, fv{"platform-onopen", "redacted-write-fails"}, fv{"platform-onopen", "later-step-stalls"})
 	for _, x := range fvs {
 		for _, lvl := range []string{"debug", "info", "critical"} {
 			for _, sec := range secretSets {
@@ -431,7 +449,7 @@ func TestCheck(t *testing.T) {
 	sched.Main(t, sched.Check{
 		ID:          "C11",
 		Level:       "exploration",
-		Rule:        "invariant monitor over every execution of: telnet and ssh in-channel login {accepted, one rejection, three rejections, device silent at the password prompt, write error on the credential write}, privilege escalation, called directly and from the driver's on-open function {asks then grants, grants, refuses, asks then refuses, asks then the stream ends / fails / falls silent right after the secret arrived}, interactive send with a hidden secret (generic and network), platform on-open with a redacted write, system transport refusing a passphrase-protected key (generic and NETCONF); x log level {debug, info, critical} x secret shape {plain, format verbs, regex metacharacters} x read preset {whole, 1 byte} (+ every single extra cut/hold at debug level); a capturing logger and a channel-log writer are attached; distinct = distinct (family, variant, level, secret, schedule)",
+		Rule:        "invariant monitor over every execution of: telnet and ssh in-channel login {accepted, one rejection, three rejections, device silent at the password prompt, write error on the credential write}, privilege escalation, called directly and from the driver's on-open function {asks then grants, grants, refuses, asks then refuses, asks then the stream ends / fails / falls silent right after the secret arrived, asks then the write of the secret itself fails}, interactive send with a hidden secret (generic and network), platform on-open with a redacted write (succeeding, failing on that write, a later step of the sequence timing out), system transport refusing a passphrase-protected key (generic and NETCONF); x log level {debug, info, critical} x secret shape {plain, format verbs, regex metacharacters} x read preset {whole, 1 byte} (+ every single extra cut/hold at debug level); a capturing logger and a channel-log writer are attached; distinct = distinct (family, variant, level, secret, schedule)",
 		Assumptions: []string{"the device never echoes a secret (precondition of the property)", "non-vacuity is checked: the secret reached the device, the debug log carries 'redacted' and ordinary writes"},
 		Scenarios:   scenarios,
 		Budget:      map[string]time.Duration{"quick": 4 * time.Minute, "thorough": 20 * time.Minute},
